@@ -549,7 +549,6 @@ def history_of(c):
 
 def impl_run(cases):
     import copy
-    import json
     import numpy as np
     from .. import history
     outs = []
